@@ -18,7 +18,7 @@ STUBS = ["pysam.AlignmentFile / AlignedSegment -> contract stubs: header['RG'] l
 ASSUMES = ["the expected matrix is a z3 term over ALL read variables (fold over alignments in file order); the obligation is pc => expected == observed, so attributes the code never looked at are universally quantified",
            "bases range over {REF, ALT, N}; read names over 2 values; 3 read groups (two for sample A, one for sample B)"]
 BOUNDS = {"quick": "SNV file vs FASTA: 2 records (thorough 3) at 2 positions, possibly sharing one, REF in {A,C}, any ALT, FASTA bases in {A,C}, sequence-first and variants-first; 2 alignments x 1 SNV, read groups {rg0->A, rg2->B}, bases {REF, ALT} (thorough: 3 read groups, bases {REF, ALT, N}), four combinations of the keep flags (thorough: all eight), MAPQ and threshold symbolic in 0..2, id field SM and ID, either sample; pool of two samples; reference mismatch injected at any aligned site",
-          "thorough": "2 alignments x 2 SNVs and 3 alignments x 1 SNV"}
+          "thorough": "2 alignments x 2 SNVs (all eight keep-flag settings, each sample / read-group id, reference mismatch injected) and 3 alignments x 1 SNV (keep flags all on / all off, mismatch); SNV file vs FASTA with 3 records; shared-file layouts with 3 alignments"}
 OUTSIDE = "htslib decoding, CIGAR handling, fetch overlap semantics, CRAM reference lookup (pysam); phred-based probabilities (float)"
 TASKS_PER_CHILD = 2
 RGS = [dict(ID="rg0", SM="A"), dict(ID="rg1", SM="A"), dict(ID="rg2", SM="B")]
@@ -40,9 +40,10 @@ def configs(tier):
     for k, ns in [(2, 2), (3, 1)]:
         for idf in ("SM", "ID"):
             for want in (("A", "B") if idf == "SM" else ("rg0", "rg2")):
-                for mism in (False, True):
-                    for skips in itertools.product((False, True), repeat=3):
-                        out.append(dict(group="extract", k=k, ns=ns, idf=idf, want=want, mismatch=mism, skips=list(skips), small=(k == 3)))
+                # three alignments are ~10x the cost of two: all eight keep-flag settings for k = 2, the two extreme ones for k = 3
+                for skips in (itertools.product((False, True), repeat=3) if k == 2 else [(True, True, True), (False, False, False)]):
+                    out.append(dict(group="extract", k=k, ns=ns, idf=idf, want=want, mismatch=False, skips=list(skips), small=(k == 3)))
+                out.append(dict(group="extract", k=k, ns=ns, idf=idf, want=want, mismatch=True, skips=[True, True, True], small=(k == 3)))
     out.append(dict(group="encode", k=2, ns=2, small=False))
     out.append(dict(group="encode", k=2, ns=2, small=False, layout="two"))
     out.append(dict(group="encode", k=3, ns=1, small=True))
